@@ -110,10 +110,11 @@ func MkGraph[I, O any](opts ...compose.NewGraphOption) GraphH {
 	return gh[I, O]{compose.NewGraph[I, O](opts...)}
 }
 
-// MkLambda: a lambda of declared types I -> O that returns what emit says; kind selects the
+// MkLambda: a lambda of declared types I -> O that reports every value it receives to seen and
+// returns what emit says; kind selects the
 // paradigm it is written in: 0 Invoke | 1 Stream | 2 Collect | 3 Transform (the stream-reading
 // kinds read their input to its end first, so that a lazily converted chunk is checked)
-func MkLambda[I, O any](emit func() any, kind int) *compose.Lambda {
+func MkLambda[I, O any](emit func() any, seen func(any), kind int) *compose.Lambda {
 	out := func() O {
 		var o O
 		if v := emit(); v != nil {
@@ -124,18 +125,20 @@ func MkLambda[I, O any](emit func() any, kind int) *compose.Lambda {
 	drain := func(sr *schema.StreamReader[I]) error {
 		defer sr.Close()
 		for {
-			_, err := sr.Recv()
+			v, err := sr.Recv()
 			if err == io.EOF {
 				return nil
 			}
 			if err != nil {
 				return err
 			}
+			seen(v)
 		}
 	}
 	switch kind {
 	case 1:
 		return compose.StreamableLambda(func(ctx context.Context, in I) (*schema.StreamReader[O], error) {
+			seen(in)
 			return schema.StreamReaderFromArray([]O{out()}), nil
 		})
 	case 2:
@@ -155,6 +158,7 @@ func MkLambda[I, O any](emit func() any, kind int) *compose.Lambda {
 		})
 	}
 	return compose.InvokableLambda(func(ctx context.Context, in I) (O, error) {
+		seen(in)
 		return out(), nil
 	})
 }
